@@ -11,6 +11,13 @@
 //!      a closure argument must not have been called
 //!   opt option-name spellings through the five public parsers and through the operations that take them
 //!   inv coverage accounting against the regenerated inventory (driver side counts from Tables.lean)
+//!   ea the Earlier error wins over invalid Arguments: an invalid-argument line of a Result-receiver method (zero parts, axis outside
+//!      the rank, index out of bounds, non-fitting operand, unknown option name) invoked on `Err(e)` must return that `Err(e)`
+//! Robustness streams (FRAMEWORK.md): a class token may carry suffixes — `-z` zero-size receiver (an argument the model accepts there
+//! is not invalid for that receiver: open region, only a panic fails; class `u` still demands an error value), `-p` the plain
+//! `Array<T>` receiver instead of `Ok(array)`, `-u8r` / `-u8p` / `-f64r` / `-f64p` / `-strr` / `-strp` the element type (for the 46
+//! methods of the 11 traits that are generic in the element type) and receiver.  The driver answers for the base class.  Every
+//! m/b/u call is made twice and must give the same outcome.
 //! Every method is invoked through ONE registry closure (`entries()`); Result-receiver methods are called on
 //! `Ok(array)` for the argument classes (pure delegation `self.clone()?.m(args)`, checked by the translator + `decide`)
 //! and on `Err(e)` for propagation.
@@ -485,7 +492,7 @@ struct Gen<'a> {
     out: &'a mut dyn FnMut(String), seen: BTreeMap<String, BTreeSet<String>>,
     /// class suffix of the robustness streams: `-z` (zero-size receiver), `-p` / `-u8r` / … (receiver / element type variant)
     suffix: String, only: Only, res_keys: BTreeSet<String>, gen_keys: BTreeSet<String>,
-    /// when set, lines are collected instead of printed (source of the `pa` stream)
+    /// when set, lines are collected instead of printed (source of the `ea` stream)
     capture: Option<Vec<Captured>>,
 }
 impl<'a> Gen<'a> {
@@ -772,7 +779,7 @@ fn gen(tier: &str, _seed: u64, out: &mut dyn FnMut(String)) {
     //    invalid: open), `-p` plain `Array<T>` receiver, `-u8r` … element type + receiver.
     // 7a. sizes: every invalid-argument class on big receivers (element counts > 512 / 1024 / 4096, axis lengths 16..70, rank 4)
     let mut big: Vec<Vec<usize>> = vec![vec![600], vec![1030], vec![4100], vec![2, 600], vec![600, 2], vec![65, 3], vec![3, 65], vec![2, 70, 2], vec![17, 16], vec![70, 70], vec![5, 5, 5, 5]];
-    if thorough { big.extend(vec![vec![513], vec![1025], vec![4097], vec![3, 700], vec![40, 30], vec![4, 4, 4, 4], vec![2, 3, 4, 5], vec![9, 9], vec![7, 1, 9], vec![1, 16, 1, 17]]); }
+    if thorough { big.extend(vec![vec![513], vec![1025], vec![4097], vec![9000], vec![3, 3000], vec![3, 700], vec![40, 30], vec![4, 4, 4, 4], vec![2, 3, 4, 5], vec![9, 9], vec![7, 1, 9], vec![1, 16, 1, 17]]); }
     for s in &big { gen_shape(&mut g, s); }
     for s in [vec![600usize], vec![2, 600], vec![17, 16]] { gen_total(&mut g, &s); for e in &ents { g.e("n", e.tr, e.m, &s, &[]); } }
     // 7b. zero-length axes
@@ -808,7 +815,7 @@ fn gen(tier: &str, _seed: u64, out: &mut dyn FnMut(String)) {
         let errs = if thorough { vec![i % nerr, (i * 7 + 3) % nerr, (i * 5 + 11) % nerr, (i + 15) % nerr] } else { vec![i % nerr, (i * 7 + 3) % nerr] };
         for (j, ei) in errs.iter().enumerate() {
             let suf = if g.gen_keys.contains(&key) { ["", "-u8r", "-strr", "-f64r"][(i + j) % 4] } else { "" };
-            let mut line = format!("pa{suf}.{tr}.{m} 2,3 e{ei}");
+            let mut line = format!("ea{suf}.{tr}.{m} 2,3 e{ei}");
             for t in toks { line.push(' '); line.push_str(t); }
             (g.out)(line);
         }
@@ -887,16 +894,16 @@ fn exec(op: &str, args: &[&str], expected: &str) -> Option<Verdict> {
             let observed = parse_opt(p, unhex(args.first()?), *args.get(1)? == "string")?;
             Some(compare_default(observed, expected))
         }
-        "p" | "pa" => {
+        "p" | "ea" => {
             let i: usize = args.get(1)?.strip_prefix('e')?.parse().ok()?;
             let errs = error_values();
             let e = errs.get(i)?;
             CALLS.with(|c| c.set(0));
-            let toks: &[&str] = if cls == "pa" { &args[2..] } else { &[] };
+            let toks: &[&str] = if cls == "ea" { &args[2..] } else { &[] };
             let mut observed = run_entry(rest, alt, &Rc::Err(e), toks)?;
             if CALLS.with(|c| c.get()) > 0 { observed = format!("closure-called ({observed})"); }
             if observed == expected { Some(Verdict::Match(observed)) }
-            else { Some(Verdict::Mismatch { detail: format!("invoked on Err({e:?}){}; the earlier error must come back unchanged — the model (liftR) says `{expected}`", if cls == "pa" { " with invalid arguments" } else { "" }), observed }) }
+            else { Some(Verdict::Mismatch { detail: format!("invoked on Err({e:?}){}; the earlier error must come back unchanged — the model (liftR) says `{expected}`", if cls == "ea" { " with invalid arguments" } else { "" }), observed }) }
         }
         "m" | "b" | "u" | "o" | "n" | "t" => {
             let sh = parse_usize_list(args.first()?);
@@ -924,9 +931,9 @@ fn exec(op: &str, args: &[&str], expected: &str) -> Option<Verdict> {
 }
 
 /// non-trivial: an invalid argument, an unknown/known option spelling, or an error receiver (not the smoke / extreme-value / open / accounting lines)
-fn nontrivial(op: &str, _args: &[&str]) -> bool { matches!(op.split_once('.').map(|x| x.0.split('-').next().unwrap_or("")), Some("m" | "b" | "u" | "p" | "pa" | "opt")) }
+fn nontrivial(op: &str, _args: &[&str]) -> bool { matches!(op.split_once('.').map(|x| x.0.split('-').next().unwrap_or("")), Some("m" | "b" | "u" | "p" | "ea" | "opt")) }
 
 fn main() {
     harness_main(Spec { prop: "C09", gen, exec, nontrivial, hang_secs: 20,
-        rule: "every method of the regenerated inventory is registered once (inv.* lines compare the registry with Tables.lean); classes: p = 205 Result-receiver methods x 23 error values (15 variants, payload and empty payload); m/b/u = arguments the statement calls invalid (axis = rank, rank+1, isize::MAX, -rank-1, isize::MIN, +-1000 at every position; wrong-length axis/coordinate lists; index = bound, bound+1, usize::MAX; non-fitting shapes; zero parts; unknown option names) on 16 shapes of rank 1..4 (quick) / all shapes rank<=4 len<=3 + 4 larger (thorough); opt = 80 spellings x 5 parsers x {&str,String}; n/t = smoke and extreme values (only panic fails); o = open regions. distinct = distinct case lines; non-trivial = classes m,b,u,p,opt" });
+        rule: "ROBUSTNESS STREAMS: the invalid-argument classes below also on big receivers ([600],[1030],[4100],[2,600],[600,2],[65,3],[3,65],[2,70,2],[17,16],[70,70],[5,5,5,5]; thorough +10), on every zero_shapes() receiver (class suffix -z), through the plain receiver (-p, all 203 Result-receiver methods) and on u8/f64/String arrays through both receivers (46 generic methods) for 6 (11) shapes incl. [600],[2,600] and 4 zero-size shapes; option names as enum/&str/String: 20 blank / whitespace / padded / non-ASCII names x 9 option-taking calls, valid names in all three spellings combined with an invalid axis / operand; ea = every invalid-argument line of shape [2,3] invoked on Err(e) for 2 (4) of the 23 error values; propagation also through the Result impls at u8/f64/String; each m/b/u call made twice. BASE: every method of the regenerated inventory is registered once (inv.* lines compare the registry with Tables.lean); classes: p = 205 Result-receiver methods x 23 error values (15 variants, payload and empty payload); m/b/u = arguments the statement calls invalid (axis = rank, rank+1, isize::MAX, -rank-1, isize::MIN, +-1000 at every position; wrong-length axis/coordinate lists; index = bound, bound+1, usize::MAX; non-fitting shapes; zero parts; unknown option names) on 16 shapes of rank 1..4 (quick) / all shapes rank<=4 len<=3 + 4 larger (thorough); opt = 80 spellings x 5 parsers x {&str,String}; n/t = smoke and extreme values (only panic fails); o = open regions. distinct = distinct case lines; non-trivial = classes m,b,u,p,ea,opt (any suffix)" });
 }
